@@ -25,7 +25,7 @@ def cases(tier, seed):
         out.append({"kind": "meta", "keys": [list(k) for k in keys[a:a + blk]]})
     for fam in ("hill", "shekel"):
         for a in range(0, 1000, 20):
-            out.append({"kind": "table", "fam": fam, "a": a, "b": a + 20, "seed": seed})
+            out.append({"kind": "table", "fam": fam, "a": a, "b": a + 20, "seed": seed, "npts": 48 if tier == "quick" else 2000})
     return out
 
 
@@ -141,7 +141,7 @@ def run_case(c):
         f, df, lo, hi = closed_form(fam, g, k)
         p = bench.construct((fam, k))
         # (a) the executed code agrees with the documented closed form
-        xs = np.concatenate([[lo, hi], lo + rng.random(48) * (hi - lo)])
+        xs = np.concatenate([[lo, hi], lo + rng.random(c.get("npts", 48)) * (hi - lo)])
         real = np.array([bench.evaluate(p, [x]) for x in xs])
         cf = f(xs)
         if np.any(np.abs(real - cf) > 1e-9 * np.maximum(1.0, np.abs(cf))):
